@@ -4,13 +4,15 @@
  *
  * usage: replay_dyn <op> <kind> <len> <cap> <esz> <index> <value> <newcap> <ssz> <success_null> <c08>
  *   op    get set push pop remove_at clear reserve clone new new_cap push_struct get_struct set_struct pop_struct
+ *         list_get list_set list_pop list_push list_insert list_remove   (src/runtime/list_int.c; kind/esz ignored)
  *   kind  ElementType value (1 int, 8 u8, 2 float, 3 string, 4 bool, 5 array, 6 struct, 7 pointer)
  *   the array is built directly in the shape of the witness: header {len, cap, kind, esz}, store of cap*esz bytes
  *   filled with the pattern byte(j) = 31*j+7 (length/capacity as CBMC chose them, capped at 1<<20 elements)
  *   value is the raw 64-bit pattern of the pushed / stored value;  c08=1: also apply the C08-only clauses
  * The operation runs in a child process: a failed assert()/abort()/exit(!=0) there is "the run ended with an
  * error" (what C08 asks for on out-of-range); a sanitizer report or a violated postcondition makes the child
- * exit 1.  Parent exit status: 0 = contract held natively, 1 = real code misbehaves (postcondition violated or
+ * exit 78 (sanitizers are told to exit 77, so that neither is confused with the exit(1) of list_int.c).
+ * Parent exit status: 0 = contract held natively, 1 = real code misbehaves (postcondition violated or
  * sanitizer report), 3 = the run ended although the operation was legal, 2 = usage.
  */
 #include <stdio.h>
@@ -20,6 +22,7 @@
 #include <unistd.h>
 #include <sys/wait.h>
 #include "runtime/dyn_array.h"
+#include "runtime/list_int.h"
 
 static int bad = 0;
 #define CHECK(c, ...) do { if (!(c)) { printf("POSTCONDITION violated: %s  [", #c); printf(__VA_ARGS__); printf("]\n"); bad = 1; } } while (0)
@@ -182,14 +185,58 @@ static int run_child(const char *op)
             CHECK(a->length == len - 1, "length"); if (sp) CHECK(s == true, "success");
             for (uint64_t j = 0; j < ssz; j++) CHECK(out[j] == old_byte((len - 1) * esz + j), "out byte %llu", (unsigned long long)j);
         } else { CHECK(a->length == 0, "length"); if (sp) CHECK(s == false, "success"); }
+    } else if (!strncmp(op, "list_", 5)) {
+        List_int *l = malloc(sizeof *l);
+        l->length = (int)len; l->capacity = (int)cap; l->data = malloc(sizeof(int64_t) * (size_t)cap);
+        for (int64_t k = 0; k < cap; k++) l->data[k] = 1000 + k;
+        int i = (int)idx;
+        if (!strcmp(op, "list_get")) {
+            int64_t r = list_int_get(l, i);
+            CHECK(in_range(), "list_int_get returned for index %d outside [0,%lld)", i, (long long)len);
+            if (in_range()) CHECK(r == 1000 + i, "value");
+        } else if (!strcmp(op, "list_set")) {
+            list_int_set(l, i, (int64_t)value);
+            CHECK(in_range(), "list_int_set returned for index %d outside [0,%lld)", i, (long long)len);
+            for (int64_t k = 0; k < len; k++) CHECK(l->data[k] == (k == i ? (int64_t)value : 1000 + k), "element %lld", (long long)k);
+        } else if (!strcmp(op, "list_pop")) {
+            int64_t r = list_int_pop(l);
+            CHECK(len > 0, "list_int_pop of an empty list returned");
+            if (len > 0) CHECK(l->length == len - 1 && r == 1000 + len - 1, "pop result");
+        } else if (!strcmp(op, "list_push")) {
+            list_int_push(l, (int64_t)value);
+            CHECK(l->length == len + 1 && l->length <= l->capacity, "length %d capacity %d", l->length, l->capacity);
+            if (l->length == len + 1 && l->length <= l->capacity)
+                for (int64_t k = 0; k <= len; k++) CHECK(l->data[k] == (k == len ? (int64_t)value : 1000 + k), "element %lld", (long long)k);
+        } else if (!strcmp(op, "list_insert")) {
+            list_int_insert(l, i, (int64_t)value);
+            CHECK(idx >= 0 && idx <= len, "list_int_insert returned for index %d outside [0,%lld]", i, (long long)len);
+            CHECK(l->length == len + 1 && l->length <= l->capacity, "length %d capacity %d", l->length, l->capacity);
+            if (idx >= 0 && idx <= len && l->length == len + 1 && l->length <= l->capacity)
+                for (int64_t k = 0; k <= len; k++)
+                    CHECK(l->data[k] == (k < i ? 1000 + k : k == i ? (int64_t)value : 1000 + k - 1), "element %lld", (long long)k);
+        } else if (!strcmp(op, "list_remove")) {
+            int64_t r = list_int_remove(l, i);
+            CHECK(in_range(), "list_int_remove returned for index %d outside [0,%lld)", i, (long long)len);
+            if (in_range()) {
+                CHECK(r == 1000 + i && l->length == len - 1, "result");
+                for (int64_t k = 0; k < len - 1; k++) CHECK(l->data[k] == (k < i ? 1000 + k : 1000 + k + 1), "element %lld", (long long)k);
+            }
+        } else return 2;
+        printf("%s(len=%lld, cap=%lld, index=%d) returned, length now %d\n", op, (long long)len, (long long)cap, i, l->length);
     } else return 2;
     fflush(stdout);
-    return bad;
+    return bad ? 78 : 0;
 }
 
 int main(int argc, char **argv)
 {
     if (argc < 12) { fprintf(stderr, "usage: see head of replay_dyn.c\n"); return 2; }
+    if (!getenv("REPLAY_DYN_REEXEC")) {     /* give sanitizer reports an exit code of their own */
+        setenv("REPLAY_DYN_REEXEC", "1", 1);
+        setenv("ASAN_OPTIONS", "detect_leaks=0:abort_on_error=0:exitcode=77", 1);
+        setenv("UBSAN_OPTIONS", "print_stacktrace=1:exitcode=77", 1);
+        execv("/proc/self/exe", argv);
+    }
     const char *op = argv[1];
     kind = atoi(argv[2]); len = strtoll(argv[3], 0, 0); cap = strtoll(argv[4], 0, 0); esz = atoi(argv[5]);
     idx = strtoll(argv[6], 0, 0); value = strtoull(argv[7], 0, 0); newcap = strtoll(argv[8], 0, 0); ssz = strtoull(argv[9], 0, 0);
@@ -209,18 +256,24 @@ int main(int argc, char **argv)
     pid_t p = fork();
     if (p == 0) _exit(run_child(op));
     int st = 0; waitpid(p, &st, 0);
-    if (WIFSIGNALED(st) || (WIFEXITED(st) && WEXITSTATUS(st) >= 2 && WEXITSTATUS(st) != 2)) {
+    if (WIFEXITED(st) && (WEXITSTATUS(st) == 77 || WEXITSTATUS(st) == 78)) {
+        printf("real code misbehaves (see above: %s)\n", WEXITSTATUS(st) == 77 ? "sanitizer report" : "violated postcondition");
+        return 1;
+    }
+    if (WIFSIGNALED(st) || (WIFEXITED(st) && WEXITSTATUS(st) != 0 && WEXITSTATUS(st) != 2)) {
         /* SIGABRT from assert()/abort(), or exit(n): the run ended with an error */
         int sig = WIFSIGNALED(st) ? WTERMSIG(st) : 0;
         if (sig && sig != SIGABRT) { printf("child died with signal %d (memory fault)\n", sig); return 1; }
         int legal = 1;
         if (!strcmp(op, "get") || !strcmp(op, "set") || !strcmp(op, "remove_at")) legal = in_range();
+        else if (!strcmp(op, "list_get") || !strcmp(op, "list_set") || !strcmp(op, "list_remove")) legal = in_range();
+        else if (!strcmp(op, "list_pop")) legal = len > 0;
+        else if (!strcmp(op, "list_insert")) legal = idx >= 0 && idx <= len;
         else if (!strcmp(op, "push_struct")) legal = (kind == ELEM_STRUCT || len == 0) && ssz <= 255 && (esz == 0 || (uint64_t)esz == ssz);
         else if (!strcmp(op, "set_struct") || !strcmp(op, "pop_struct")) legal = (uint64_t)esz == ssz;
         printf("the run ended with an error (%s %d) - %s\n", sig ? "signal" : "exit", sig ? sig : WEXITSTATUS(st),
                legal ? "although the operation was legal" : "as the contract expects for this call");
         return legal ? 3 : 0;
     }
-    if (WIFEXITED(st) && WEXITSTATUS(st) == 1) { printf("real code misbehaves (see above: violated postcondition or sanitizer report)\n"); return 1; }
     return WIFEXITED(st) ? WEXITSTATUS(st) : 1;
 }
